@@ -194,7 +194,7 @@ pub fn mem_history(seed: u64, thorough: bool) -> History {
     let p = profile("forest");
     let metric = *ALL_METRICS.choose(&mut rng).unwrap();
     let dim = *[8usize, 30].choose(&mut rng).unwrap();
-    let sizes: &[u32] = if thorough { &[150, 199, 200, 201, 300, 450, 1000] } else { &[150, 199, 200, 201, 300, 450] };
+    let sizes: &[u32] = if thorough { &[150, 199, 200, 201, 300, 450, 520, 1000] } else { &[150, 199, 200, 201, 300, 450, 520] };
     let n = *sizes.choose(&mut rng).unwrap();
     let item_bytes = (n as usize) * (dim * 4 + 16);
     let mems = [Some(0usize), Some(4096), Some(16 * 4096), Some(item_bytes), Some(item_bytes / 2), Some(1 << 30), None];
@@ -302,4 +302,52 @@ pub fn degenerate_history(seed: u64, thorough: bool) -> History {
 
 pub fn metric_of(h: &History) -> Metric {
     h.indexes[0].metric
+}
+
+/// Specification -> implementation: a behaviour of Arroy.tla printed by Replay.tla (a list of
+/// {op, i, id, t, req, cap}) instantiated with concrete indexes, ids and vectors.
+pub fn history_from_model(ops: &serde_json::Value, seed: u64) -> History {
+    let mut rng = StdRng::seed_from_u64(seed);
+    let p = profile("forest");
+    let pair = crate::gen::INDEX_PAIRS[rng.gen_range(0..crate::gen::INDEX_PAIRS.len())];
+    let metric = *ALL_METRICS.choose(&mut rng).unwrap();
+    let dim = *[1usize, 2, 3, 5, 17].choose(&mut rng).unwrap();
+    // ids 1..4 of the model -> ascending concrete ids
+    let mut ids: Vec<u32> = crate::gen::ID_POOL.choose_multiple(&mut rng, 4).copied().collect();
+    ids.sort();
+    let toks: std::collections::BTreeMap<String, Vec<u32>> =
+        ["a", "b", "c"].iter().map(|t| (t.to_string(), gen_vector(&mut rng, dim, &p, false))).collect();
+    let mut out = Vec::new();
+    for o in ops.as_array().unwrap() {
+        let idx = pair[(o["i"].as_u64().unwrap_or(1).max(1) as usize - 1) % 2];
+        let id = ids[(o["id"].as_u64().unwrap_or(1).max(1) as usize - 1) % 4];
+        match o["op"].as_str().unwrap() {
+            "add" => out.push(Op::Add { idx, id, v: toks[o["t"].as_str().unwrap()].clone() }),
+            "append" => out.push(Op::Append { idx, id, v: toks[o["t"].as_str().unwrap()].clone() }),
+            "del" => out.push(Op::Del { idx, id }),
+            "clear" => out.push(Op::Clear { idx }),
+            "build" => {
+                let req = o["req"].as_u64().unwrap() as usize;
+                out.push(Op::Build {
+                    idx,
+                    o: BuildOpts { n_trees: if req == 0 { None } else { Some(req) }, split_after: Some(o["cap"].as_u64().unwrap() as usize), seed: rng.gen(), ..Default::default() },
+                });
+                if rng.gen_bool(0.3) {
+                    out.push(Op::Search { idx, seed: rng.gen() });
+                }
+            }
+            "commit" => out.push(Op::Commit),
+            "abort" => out.push(Op::Abort),
+            _ => {}
+        }
+    }
+    History {
+        indexes: pair.iter().map(|i| IndexDecl { idx: *i, metric, dim }).collect(),
+        ops: out,
+        map_size: 64 * 1024 * 1024,
+        label: format!("model:{seed}"),
+        faults: vec![],
+        max_polls: 2_000_000,
+        sides: true,
+    }
 }
